@@ -141,6 +141,17 @@ CLAIMED = {
              "results) are decided by the fingerprint oracle on the implementation only (partial).",
              technique="Coq proof (Hoare-style frame rule over an append-only heap, induction over well loops and histories); differential correspondence incl. object-identity graph; fingerprint oracle around every call",
              design="5 C04"),
+ 'C09': dict(text="Theorems (every recipe of the step language, every substance incl. ones never used, every duplicate-free destination "
+             "set, both treatments of slice fills): the sum the query forms over the snapshots of the whole recipe equals the amount of the "
+             "substance inside the destinations after minus before, plus what the remove steps discarded (used_is_net_gain_plus_discarded); for "
+             "a stage = steps s2 of s1++s2++s3 exactly those steps count, measured between the table before the first and after the last "
+             "(timeframe); consecutive stages add up to their union; the result is converted to the requested unit and a net decrease is "
+             "ValueError. Supporting: the substances_used filter never hides a change (per step kind, incl. all plate pairings), an "
+             "intra-plate transfer (read twice by the query) nets to zero. Hypotheses, stated in the theorem: substances well formed, the "
+             "table satisfies the container invariant, a created name still holds its placeholder when its step runs. Stage bookkeeping "
+             "(names -> index ranges) is C16; rounding/noise threshold of the float code by correspondence.",
+             technique="Coq proof (frame + telescoping over the name table, filter soundness by case analysis over step kinds and induction over well loops); differential correspondence; independent eager ledger as oracle",
+             design="5 C09"),
 }
 checks = []
 for p in props:
